@@ -219,6 +219,11 @@ func (ex *exec) evalCall(st *State, call *ast.CallExpr, want bool) Value {
 	if v, ok := ex.stdModel(st, key, fn, recv, args, call); ok {
 		return v
 	}
+	if ex.mode == ModeInt {
+		if ct := ex.eng.contracts[key+"#int"]; ct != nil {
+			return ex.applyContract(st, ct, fn, recv, args, call)
+		}
+	}
 	if ct := ex.eng.contracts[key]; ct != nil && !ct.Inline && !(ex.root.Key == key && len(ex.frames) == 0) {
 		return ex.applyContract(st, ct, fn, recv, args, call)
 	}
